@@ -79,3 +79,160 @@ Proof.
       rewrite (H x Hx) in Hb. discriminate. }
     rewrite E, E2. reflexivity.
 Qed.
+
+(* ---- set_nth ------------------------------------------------------------------------ *)
+Lemma set_nth_length : forall A (l : list A) i x, length (set_nth l i x) = length l.
+Proof. induction l; intros [|i] x; cbn; auto. Qed.
+
+Lemma nth_error_set_nth_eq : forall A (l : list A) i x, i < length l -> nth_error (set_nth l i x) i = Some x.
+Proof. induction l; intros [|i] x H; cbn in *; try lia; auto. apply IHl. lia. Qed.
+
+Lemma nth_error_set_nth_neq : forall A (l : list A) i j x, i <> j -> nth_error (set_nth l i x) j = nth_error l j.
+Proof. induction l; intros [|i] [|j] x H; cbn; auto; try congruence. Qed.
+
+Lemma nth_error_set_nth : forall A (l : list A) i j x y,
+  nth_error (set_nth l i x) j = Some y ->
+  (i = j /\ y = x /\ i < length l) \/ (i <> j /\ nth_error l j = Some y).
+Proof.
+  intros A l i j x y H. destruct (Nat.eq_dec i j) as [E|E].
+  - subst j. assert (i < length l).
+    { rewrite <- (set_nth_length A l i x). apply nth_error_Some. congruence. }
+    left. rewrite nth_error_set_nth_eq in H by assumption. inversion H. auto.
+  - right. rewrite nth_error_set_nth_neq in H by assumption. auto.
+Qed.
+
+Lemma nth_error_lt : forall A (l : list A) i x, nth_error l i = Some x -> i < length l.
+Proof. intros. apply nth_error_Some. congruence. Qed.
+
+Lemma get_conn_nth : forall cs c x, nth_error cs c = Some x -> get_conn cs c = x.
+Proof. intros. unfold get_conn. apply nth_error_nth. assumption. Qed.
+
+Lemma get_conn_app_old : forall cs x c, c < length cs -> get_conn (cs ++ [x]) c = get_conn cs c.
+Proof. intros. unfold get_conn. apply app_nth1. assumption. Qed.
+
+Lemma get_conn_app_new : forall cs x, get_conn (cs ++ [x]) (length cs) = x.
+Proof. intros. unfold get_conn. rewrite app_nth2 by lia. rewrite Nat.sub_diag. reflexivity. Qed.
+
+Lemma get_conn_set_eq : forall cs c x, c < length cs -> get_conn (set_nth cs c x) c = x.
+Proof. intros. apply get_conn_nth. apply nth_error_set_nth_eq. assumption. Qed.
+
+Lemma get_conn_set_neq : forall cs c d x, c <> d -> get_conn (set_nth cs c x) d = get_conn cs d.
+Proof.
+  intros. unfold get_conn. 
+  destruct (nth_error cs d) eqn:E.
+  - rewrite (nth_error_nth _ _ _ E). apply nth_error_nth. rewrite nth_error_set_nth_neq; assumption.
+  - assert (E2 : nth_error (set_nth cs c x) d = None) by (rewrite nth_error_set_nth_neq; assumption).
+    apply nth_error_None in E. apply nth_error_None in E2.
+    rewrite !nth_overflow by assumption. reflexivity.
+Qed.
+
+(* ---- isBetterConn / bestConnToPeer ------------------------------------------------------ *)
+Lemma better_keeps_nonlim_new : forall a b, better a b = true -> c_lim b = false -> c_lim a = false.
+Proof.
+  intros a b H Hb. unfold better in H. rewrite Hb in H.
+  destruct (c_lim a); cbn in H; [discriminate|reflexivity].
+Qed.
+
+Lemma better_keeps_nonlim_old : forall a b, better a b = false -> c_lim a = false -> c_lim b = false.
+Proof.
+  intros a b H Ha. unfold better in H. rewrite Ha in H.
+  destruct (c_lim b); cbn in H; [discriminate|reflexivity].
+Qed.
+
+Definition best_wf (cs : list conn) (b : option (nat * conn)) : Prop :=
+  match b with
+  | Some (j, c) => nth_error cs j = Some c /\ usable c = true
+  | None => True
+  end.
+
+Lemma best_from_wf : forall l cs pre b,
+  cs = pre ++ l -> best_wf cs b ->
+  best_wf cs (best_from l (length pre) b).
+Proof.
+  induction l as [|c r IH]; intros cs pre b Hcs Hb; cbn [best_from]; [exact Hb|].
+  replace (S (length pre)) with (length (pre ++ [c])) by (rewrite app_length; cbn; lia).
+  apply IH; [rewrite <- app_assoc; exact Hcs|].
+  destruct (usable c) eqn:U; [|exact Hb].
+  assert (Hc : nth_error cs (length pre) = Some c).
+  { subst cs. rewrite nth_error_app2 by lia. rewrite Nat.sub_diag. reflexivity. }
+  destruct b as [[j b]|]; cbn [best_wf].
+  - destruct (better c b); cbn [best_wf]; auto.
+  - auto.
+Qed.
+
+Definition best_nonlim (b : option (nat * conn)) : Prop :=
+  match b with Some (_, c) => c_lim c = false | None => False end.
+
+Lemma best_from_nonlim : forall l i b,
+  best_nonlim b \/ (exists c, In c l /\ usable c = true /\ c_lim c = false) ->
+  best_nonlim (best_from l i b).
+Proof.
+  induction l as [|c r IH]; intros i b H; cbn [best_from].
+  - destruct H as [H|[c [[] _]]]. exact H.
+  - apply IH. destruct H as [H|[x [[E|Hin] [Hu Hl]]]].
+    + left. destruct (usable c); [|exact H]. destruct b as [[j b]|]; [|destruct H].
+      cbn [best_nonlim] in *. destruct (better c b) eqn:Bt; cbn [best_nonlim]; [|exact H].
+      eapply better_keeps_nonlim_new; eauto.
+    + subst x. left. rewrite Hu. destruct b as [[j b]|]; cbn [best_nonlim]; [|exact Hl].
+      destruct (better c b) eqn:Bt; cbn [best_nonlim]; [exact Hl|].
+      eapply better_keeps_nonlim_old; eauto.
+    + right. exists x. auto.
+Qed.
+
+Lemma best_conn_some : forall cs j, best_conn cs = Some j ->
+  j < length cs /\ usable (get_conn cs j) = true.
+Proof.
+  intros cs j H. unfold best_conn in H.
+  pose proof (best_from_wf cs cs [] None eq_refl I) as W. cbn [length] in W.
+  destruct (best_from cs 0 None) as [[k c]|]; cbn in H; [|discriminate]. inversion H; subst k.
+  destruct W as [W1 W2]. split; [eapply nth_error_lt; eauto|]. rewrite (get_conn_nth _ _ _ W1). exact W2.
+Qed.
+
+(* if some usable non-limited connection exists, the best one is non-limited *)
+Lemma best_conn_nonlim : forall cs,
+  (exists c, c < length cs /\ usable (get_conn cs c) = true /\ c_lim (get_conn cs c) = false) ->
+  exists j, best_conn cs = Some j /\ c_lim (get_conn cs j) = false.
+Proof.
+  intros cs [c [Hc [Hu Hl]]].
+  assert (N : best_nonlim (best_from cs 0 None)).
+  { apply best_from_nonlim. right. exists (get_conn cs c). split; [|auto].
+    unfold get_conn. apply nth_In. exact Hc. }
+  pose proof (best_from_wf cs cs [] None eq_refl I) as W. cbn [length] in W.
+  unfold best_conn. destruct (best_from cs 0 None) as [[k x]|]; [|destruct N].
+  exists k. cbn. split; [reflexivity|]. destruct W as [W1 _]. rewrite (get_conn_nth _ _ _ W1). exact N.
+Qed.
+
+Lemma best_from_keeps_some : forall l i b, b <> None -> best_from l i b <> None.
+Proof.
+  induction l as [|z q IHq]; intros i b Hb; cbn [best_from]; [exact Hb|].
+  apply IHq. destruct (usable z); [|exact Hb]. destruct b as [[j b]|]; [|congruence].
+  destruct (better z b); discriminate.
+Qed.
+
+Lemma best_from_finds : forall l i b, (exists x, In x l /\ usable x = true) -> best_from l i b <> None.
+Proof.
+  induction l as [|y r IH]; intros i b [x [Hin Hu]]; [destruct Hin|].
+  cbn [best_from]. destruct Hin as [E|Hin].
+  - subst y. rewrite Hu. apply best_from_keeps_some.
+    destruct b as [[j b]|]; [destruct (better x b)|]; discriminate.
+  - apply IH. eauto.
+Qed.
+
+Lemma best_conn_none : forall cs, best_conn cs = None ->
+  forall c, c < length cs -> usable (get_conn cs c) = false.
+Proof.
+  intros cs H c Hc. destruct (usable (get_conn cs c)) eqn:U; [|reflexivity]. exfalso.
+  unfold best_conn in H. destruct (best_from cs 0 None) eqn:E; [destruct p; discriminate|].
+  apply (best_from_finds cs 0 None); [|exact E].
+  exists (get_conn cs c). split; [apply nth_In; exact Hc|exact U].
+Qed.
+
+Lemma best_acceptable_some : forall force cs j, best_acceptable force cs = Some j ->
+  j < length cs /\ usable (get_conn cs j) = true /\ (force = true -> c_proxy (get_conn cs j) = false).
+Proof.
+  intros force cs j H. unfold best_acceptable in H.
+  destruct (best_conn cs) as [k|] eqn:E; [|discriminate].
+  destruct (force && c_proxy (get_conn cs k)) eqn:F; [discriminate|]. inversion H; subst k.
+  destruct (best_conn_some _ _ E) as [A B]. repeat split; auto.
+  intros ->. cbn in F. exact F.
+Qed.
